@@ -176,6 +176,33 @@ func synthCFF(n int) *sfnt.Font {
 	return f
 }
 
+// padCFF: the 5-glyph CFF font with one more glyph of n short line segments.
+// Every segment adds two or three bytes to the CharStrings INDEX, so that a
+// sweep over n moves the end of the CharStrings data, the Private DICT and the
+// end of the CFF table through every position relative to the parser's
+// 1024-byte buffer window.
+func padCFF(n int) *sfnt.Font {
+	f := synthCFF(5)
+	o := f.Outlines.(*cff.Outlines)
+	g := cff.NewGlyph("pad", 500)
+	g.MoveTo(0, 0)
+	for i := 0; i < n; i++ {
+		g.LineTo(float64(10+i%7), float64(20+i%5))
+	}
+	o.Glyphs = append(o.Glyphs, g)
+	o.Encoding = cff.StandardEncoding(o.Glyphs)
+	return f
+}
+
+// padCount: base font names of the form cffpad-N.
+func padCount(name string) (int, bool) {
+	var n int
+	if _, err := fmt.Sscanf(name, "cffpad-%d", &n); err != nil || n < 0 || n > 5000 || name != fmt.Sprintf("cffpad-%d", n) {
+		return 0, false
+	}
+	return n, true
+}
+
 // layout tables: one ligature-free GSUB (single substitution), one pair
 // adjustment GPOS (the structure read.go builds from a kern table), a GDEF
 // with glyph classes.
@@ -261,6 +288,14 @@ func baseFont(name string) (b []byte, err error) {
 		}
 	}()
 	var f *sfnt.Font
+	if n, ok := padCount(name); ok {
+		// the size sweep: not cached (hundreds of fonts, each used once)
+		buf := &bytes.Buffer{}
+		if _, err := padCFF(n).Write(buf); err != nil {
+			return nil, err
+		}
+		return buf.Bytes(), nil
+	}
 	switch name {
 	case "ttf5":
 		f = synthTTF(5, false)
